@@ -116,6 +116,18 @@ theorem C09_stream_equals_batch (F : Faults) (c : StreamCfg) (o : Opts) (h : Hdr
       (encodeChainW F o (encOn o kind size d₀ n₀) (streamFits c o h hdrDs mss)).2 :=
   stream_chain_eq F c o h mss (streamOn o kind size d₀ n₀ hdrDs) hne rfl (encOn_ready o kind size d₀ n₀ hend hown) hdir
 
+/-- VALIDATION ORDER does not matter: `Encode` runs both validators over the whole list before the first write,
+`WriteMessage` runs them on each message right before writing it. For every message validator (any state type, any
+transformation of the messages), every fault schedule and every state of the stream encoder: if the batch gate
+accepts the list — protocol validator on every message, message validator threaded through the list giving `ms'` —
+then the stream encoder's `WriteMessage` calls on the original messages do exactly what writing the validated
+messages `ms'` does (same writer state, same result). -/
+theorem C09_validation_order {σ : Type} (V : MsgValidator σ) (F : Faults) (o : Opts) (h : Hdr) (ms ms' : List WMsg)
+    (s : Stream) (hp : ms.all (protoOK h.protoVer) = true) (hv : validateAll V V.init ms = some ms') :
+    (Stream.writeAllV V F o h s V.init ms).1 = (Stream.writeAll F o h s ms').1 ∧
+    (Stream.writeAllV V F o h s V.init ms).2.2 = (if (Stream.writeAll F o h s ms').2 then Res.ok else Res.err) :=
+  writeAllV_eq V F o h ms ms' s V.init hp hv
+
 /-- SAME BYTES, stream: for every random-access writer kind, every buffer size, every series of non-empty sequences and
 every pre-filled destination, a healthy destination ends up holding `d₀ ++ encodeChain o [(h, ms₁), (h, ms₂), …]` —
 the very bytes the batch encoder leaves for the same messages under the header `h` (C09_same_bytes_batch). -/
